@@ -9,7 +9,7 @@ from pyclifford import circuit as CI
 
 RULE = ('circuits interleaving gate blocks and measurement layers (N<=4, <=10 instructions), pure and mixed signed input states; forward: outcomes (+1/-1 in order), accumulated '
         'log2prob, state and rank against the model (coins recovered) and against the dense trajectory; post-selection of signed Paulis on pure states (all N=1 cases exhaustive, random '
-        'N<=4) against the dense Born rule; backward with the recorded and with supplied (possible and impossible) records. Non-trivial = at least one measurement layer after an '
+        'N<=4) against the dense Born rule; backward with the recorded and with supplied (possible and impossible) records, and with the implicit record after the same Circuit object was run forward several times. Non-trivial = at least one measurement layer after an '
         'entangling gate and an undetermined outcome; distinct by (program, state, seed).')
 ASSUMES = ['post-selection requires a pure state (the code raises otherwise, reproduced)']
 
@@ -154,15 +154,34 @@ def c_postselect(ctx, args):
 
 
 def c_backward(ctx, args):
-    N, prog, t, seed, mode = args          # mode: 'recorded' | 'supplied' | 'flipped' | 'wrong_length'
+    N, prog, t, seed, mode = args          # mode: 'recorded' | 'supplied' | 'flipped' | 'wrong_length' | 'rerun'
     M = ctx.model
     c = NP.build_circuit(N, prog, 'Circuit')
     s = NP.STATE(t)
     NP.seed_numba(seed)
-    c.forward(s)
-    mid = S.st_list(s)
-    rec = [int(v) for v in c.measure_result]
-    if mode == 'recorded':
+    if mode == 'rerun':
+        # the same Circuit object is run more than once: the record accumulates and backward() follows the LATEST trajectory
+        nmeas = sum(len(ins[1]) for ins in prog if ins[0] == 1)
+        for k in range(1 + seed % 2):
+            NP.seed_numba(seed + 7919 * (k + 1))
+            c.forward(NP.STATE(t))
+        NP.seed_numba(seed)
+        before = len(c.measure_result)
+        c.forward(s)
+        mid = S.st_list(s)
+        if len(c.measure_result) != before + nmeas:
+            return {'kind': 'oracle', 'where': 'np:Circuit.forward record length after reruns', 'observed': len(c.measure_result), 'expected': before + nmeas}
+        rec = [int(v) for v in c.measure_result[len(c.measure_result) - nmeas:]] if nmeas else []
+        use, arg = rec, None
+        if not nmeas:
+            return None
+    else:
+        c.forward(s)
+        mid = S.st_list(s)
+        rec = [int(v) for v in c.measure_result]
+    if mode == 'rerun':
+        pass
+    elif mode == 'recorded':
         use, arg = rec, None
     elif mode == 'supplied':
         use, arg = rec, list(rec)
@@ -296,5 +315,5 @@ def run(ctx):
         do(ctx, 'mcirc', [N, prog, t, seed], nontrivial=('m', it), sample=(it < 1))
         do(ctx, 'order', [N, prog])
         tp = gen.rtableau(rng, ctx.model, N, r=0)
-        do(ctx, 'backward', [N, prog, tp, seed, rng.choice(['recorded', 'supplied', 'flipped', 'flipped', 'wrong_length'])], nontrivial=('b', it))
+        do(ctx, 'backward', [N, prog, tp, seed, rng.choice(['recorded', 'supplied', 'flipped', 'flipped', 'wrong_length', 'rerun', 'rerun'])], nontrivial=('b', it))
         do(ctx, 'postselect', [gen.rtableau(rng, ctx.model, N, r=0 if rng.random() < 0.85 else None), gen.rpauli(rng, N, herm=True, nonzero=True), rng.randint(0, 1)], nontrivial=('p', it))
